@@ -464,14 +464,12 @@ func runC11(p *engine.Prog, r *engine.Report) {
 			if !collected {
 				continue
 			}
-			sec, key := secretReadPath(u.X)
-			if sec == "" {
-				continue
-			}
-			k := sec + "/" + key
-			if _, ok := read[k]; !ok {
-				read[k] = u
-				order = append(order, k)
+			for _, sk := range secretReadPaths(u.X, nil, 0) {
+				k := sk[0] + "/" + sk[1]
+				if _, ok := read[k]; !ok {
+					read[k] = u
+					order = append(order, k)
+				}
 			}
 		}
 	}
@@ -589,9 +587,10 @@ func rootAllocOf(a ssa.Value) ssa.Value {
 	return a
 }
 
-// secretReadPath maps the address of a Secret load in the marshaller to (section yaml key, key path).
-func secretReadPath(addr ssa.Value) (string, string) {
-	var keys []string
+// secretReadPaths maps the address of a Secret load in the marshaller to (section yaml key, key path). A load
+// through an element of a list that the function itself collected (pointers to the client configs of several
+// sections, say) stands for a read of each collected place, in the order of collection.
+func secretReadPaths(addr ssa.Value, keys []string, depth int) [][2]string {
 	cur := addr
 	for d := 0; d < 10; d++ {
 		switch x := cur.(type) {
@@ -600,21 +599,67 @@ func secretReadPath(addr ssa.Value) (string, string) {
 			yk, inline := yamlKey(stt, x.Field)
 			// top-level section?
 			if n, ok := x.X.Type().Underlying().(*types.Pointer).Elem().(*types.Named); ok && n.Obj().Name() == "Config" && n.Obj().Pkg().Path() == "github.com/prometheus/prometheus/config" {
-				return yk, strings.Join(keys, ".")
+				return [][2]string{{yk, strings.Join(keys, ".")}}
 			}
 			if !inline && yk != "-" {
 				keys = append([]string{yk}, keys...)
 			}
 			cur = x.X
 		case *ssa.UnOp:
+			if ia, ok := x.X.(*ssa.IndexAddr); ok && depth < 2 {
+				if srcs := collectedElems(ia.X); len(srcs) > 0 {
+					var out [][2]string
+					for _, sv := range srcs {
+						out = append(out, secretReadPaths(sv, append([]string(nil), keys...), depth+1)...)
+					}
+					return out
+				}
+			}
 			cur = x.X
 		case *ssa.IndexAddr:
 			cur = x.X
 		default:
-			return "", ""
+			return nil
 		}
 	}
-	return "", ""
+	return nil
+}
+
+// collectedElems: v is a slice built in the function by appends (possibly merged by phis); the appended values in
+// source order. Nil when v is anything else (a field, a parameter).
+func collectedElems(v ssa.Value) []ssa.Value {
+	var out []ssa.Value
+	seen := map[ssa.Value]bool{}
+	local := true
+	var walk func(v ssa.Value)
+	walk = func(v ssa.Value) {
+		if seen[v] {
+			return
+		}
+		seen[v] = true
+		switch x := v.(type) {
+		case *ssa.Phi:
+			for _, e := range x.Edges {
+				walk(e)
+			}
+		case *ssa.Call:
+			if bi, ok := x.Call.Value.(*ssa.Builtin); ok && bi.Name() == "append" && len(x.Call.Args) == 2 {
+				walk(x.Call.Args[0])
+				out = append(out, sliceLitElems(x.Call.Args[1])...)
+				return
+			}
+			local = false
+		case *ssa.MakeSlice, *ssa.Const:
+		default:
+			local = false
+		}
+	}
+	walk(v)
+	if !local {
+		return nil
+	}
+	sort.SliceStable(out, func(i, j int) bool { return out[i].Pos() < out[j].Pos() })
+	return out
 }
 
 // validateClearsBearer re-derives the library summary from the pinned prometheus/common source (whole-program load).
